@@ -132,6 +132,36 @@ pub fn compare(start_fen: &str, moves: &[String], depth: u32, budget: u64, rep: 
             return Err(Violation::new("move", "move/bestmove-differs", format!("bestmove {bm} differs from the root's move {mv}"), cj));
         }
     }
+    // rule sensitivity of this case (reference-side flaws; never judges the engine)
+    // (every third case; the two flaws that almost every case exercises on every twelfth)
+    if r.stats.nodes + r.stats.qnodes <= 25_000 && o::hash_str(start_fen) % 3 == 0 {
+        let sampled = o::hash_str(start_fen) % 12 == 0;
+        for (flaw, name) in refsearch::FLAWS {
+            let exercised = match flaw {
+                1 => r.stats.q_ep > 0,
+                2 | 7 => r.stats.fifty_draws > 0,
+                3 => r.stats.q_promo > 0,
+                4 => r.stats.repetition_draws > 0,
+                5 => sampled && r.stats.check_extensions > 0,
+                6 => r.stats.mate_scores > 0,
+                _ => sampled && r.stats.q_captures > 0,
+            };
+            if !exercised {
+                continue;
+            }
+            let mut f = Ref::new(&game.earlier, budget);
+            f.flaw = flaw;
+            if let Some((fv, fvals)) = f.root(&root, depth) {
+                // the flawed engine would be exposed if the root value changes, or if a move
+                // it may choose (best under the flaw) is not best in truth
+                if fv != want {
+                    rep.class(&format!("sensitive(root value changes):{name}"));
+                } else if fvals.iter().any(|(m, v)| *v == fv && vals.iter().any(|(m2, v2)| m2 == m && *v2 != want)) {
+                    rep.class(&format!("sensitive(a wrong move ties for best):{name}"));
+                }
+            }
+        }
+    }
     rep.sample(|| json!({"root": root.to_fen(), "history_plies": game.earlier.len(), "depth": depth, "value": want, "engine_move": mv, "engine_nodes": res.nodes, "reference_nodes": r.stats.nodes + r.stats.qnodes, "classes": cl}));
     Ok(Outcome { skipped: None })
 }
@@ -156,11 +186,100 @@ fn pick_depth(root: &Pos, sel: u8) -> u32 {
     d
 }
 
+/// En passant at the horizon: a pawn of the side "P" stands on its home square with the two
+/// squares in front empty and an enemy pawn beside the double-push square, so that the push
+/// can be answered by an en-passant capture - in quiescence when the push is the last
+/// full-width ply.  In half of the positions the push also blocks a diagonal pin (enemy
+/// bishop/queen - double-push square - pinned piece - king), which the en-passant capture
+/// re-opens: then the capture decides the value.  Returns the position and whether the
+/// pushing side is to move.
+pub fn ep_horizon_pos(e: &mut Entropy) -> Option<(Pos, bool)> {
+    let mut p = Pos::empty();
+    let f = e.pick(8) as i32;
+    let s = if f == 0 { 1 } else if f == 7 { -1 } else if e.pick(2) == 0 { 1 } else { -1 };
+    p.sq[o::sq(f, 1)] = o::mk(true, o::P);
+    p.sq[o::sq(f + s, 3)] = o::mk(false, o::P);
+    let reserved = [o::sq(f, 1), o::sq(f, 2), o::sq(f, 3), o::sq(f + s, 3)];
+    let on = |x: i32, y: i32| (0..8).contains(&x) && (0..8).contains(&y);
+    let mut wk_placed = false;
+    if e.pick(2) == 0 {
+        let (dx, dy) = [(1, 1), (1, -1), (-1, 1), (-1, -1)][e.pick(4)];
+        let a = 1 + e.pick(3) as i32;
+        let b = 1 + e.pick(2) as i32;
+        let c = b + 1 + e.pick(2) as i32;
+        let (ax, ay) = (f + a * dx, 3 + a * dy);
+        let (bx, by) = (f - b * dx, 3 - b * dy);
+        let (cx, cy) = (f - c * dx, 3 - c * dy);
+        if on(ax, ay) && on(bx, by) && on(cx, cy) {
+            let sqs = [o::sq(ax, ay), o::sq(bx, by), o::sq(cx, cy)];
+            // nothing of the set-up on the line itself
+            let mut line = vec![];
+            for k in -(c)..=a {
+                line.push(o::sq(f + k * dx, 3 + k * dy));
+            }
+            let clash = line.iter().any(|q| *q != o::sq(f, 3) && reserved.contains(q)) || sqs.iter().any(|q| reserved.contains(q));
+            if !clash {
+                p.sq[sqs[0]] = o::mk(false, [o::B, o::Q][e.pick(2)]);
+                let t = [o::R, o::N, o::Q, o::B, o::R][e.pick(5)];
+                p.sq[sqs[1]] = o::mk(true, t);
+                p.sq[sqs[2]] = o::mk(true, o::K);
+                wk_placed = true;
+                for q in line {
+                    if p.sq[q] == 0 && q != o::sq(f, 3) {
+                        // keep the line free of the extras placed below
+                        p.sq[q] = 255;
+                    }
+                }
+            }
+        }
+    }
+    let free = |p: &Pos| -> Vec<usize> { (0..64).filter(|q| p.sq[*q] == 0 && !reserved.contains(q)).collect() };
+    if !wk_placed {
+        let fr = free(&p);
+        p.sq[fr[e.pick(fr.len())]] = o::mk(true, o::K);
+    }
+    let wk = p.king_sq(true)?;
+    let fr: Vec<usize> = free(&p).into_iter().filter(|&q| (o::file_of(q) - o::file_of(wk)).abs().max((o::rank_of(q) - o::rank_of(wk)).abs()) > 1).collect();
+    if fr.is_empty() {
+        return None;
+    }
+    p.sq[fr[e.pick(fr.len())]] = o::mk(false, o::K);
+    for _ in 0..e.pick(5) {
+        let white = e.pick(2) == 0;
+        let t = [o::P, o::P, o::N, o::B, o::R, o::Q][e.pick(6)];
+        let fr: Vec<usize> = free(&p).into_iter().filter(|&q| t != o::P || (1..=6).contains(&o::rank_of(q))).collect();
+        if fr.is_empty() {
+            break;
+        }
+        p.sq[fr[e.pick(fr.len())]] = o::mk(white, t);
+    }
+    for q in 0..64 {
+        if p.sq[q] == 255 {
+            p.sq[q] = 0;
+        }
+    }
+    let pusher_to_move = e.pick(3) != 0;
+    p.wtm = pusher_to_move;
+    p.fmn = 20 + e.pick(40) as u32;
+    if e.pick(2) == 1 {
+        p = p.mirror();
+    }
+    if p.is_valid_start().is_err() || p.in_check(p.wtm) || p.legal_moves().is_empty() {
+        return None;
+    }
+    Some((p, pusher_to_move))
+}
+
 pub const SHARDS: usize = 16;
 
 pub fn run(ctx: &Ctx) -> Report {
     if ctx.shard.is_none() {
-        return run_sharded(ctx, SHARDS, SHARDS);
+        // RCE_FUZZ_ONLY=1: only the campaign (used when measuring what the fuzzer finds alone)
+        let mut rep = if std::env::var_os("RCE_FUZZ_ONLY").is_some() { Report::new() } else { run_sharded(ctx, SHARDS, SHARDS) };
+        if ctx.tier == Tier::Thorough {
+            super::fuzzsearch::campaign(ctx, "C11", &mut rep);
+        }
+        return rep;
     }
     let mut rep = Report::new();
     let corp = corpus::load(&ctx.verif);
@@ -190,7 +309,7 @@ pub fn run(ctx: &Ctx) -> Report {
     // check chains: open boards with queens and rooks on both sides and bare kings, searched to
     // depth 1-2; lines with five and more consecutive checks are common there, so the extension
     // is applied again and again on one line
-    let chains = ctx.tier.pick(12_000, 120_000) / ctx.shard_count() as u32;
+    let chains = ctx.tier.pick(8_000, 120_000) / ctx.shard_count() as u32;
     run_prop(ctx, "c11-chains", chains, 200, (gen::synth_strategy(), 1u32..=2), &mut rep, |(ent, d), rep| {
         let mut e = Entropy::new(ent);
         let mut p = Pos::empty();
@@ -309,6 +428,24 @@ pub fn run(ctx: &Ctx) -> Report {
             let free: Vec<usize> = (0..64).filter(|&s| p.sq[s] == 0).collect();
             p.sq[free[e.pick(free.len())]] = o::mk(e.pick(2) == 0, [o::N, o::B][e.pick(2)]);
         }
+        // something to capture WITH promotion (in quiescence when the pawn move is at the horizon):
+        // an enemy piece diagonally in front of a pawn on its 7th rank
+        if e.pick(2) == 0 {
+            for s in 0..64 {
+                let c = p.sq[s];
+                if o::pt(c) != o::P {
+                    continue;
+                }
+                let (w, r7, r8) = if o::is_white(c) { (true, 6, 7) } else { (false, 1, 0) };
+                if o::rank_of(s) != r7 {
+                    continue;
+                }
+                let f = o::file_of(s) + if e.pick(2) == 0 { 1 } else { -1 };
+                if (0..8).contains(&f) && p.sq[o::sq(f, r8)] == 0 {
+                    p.sq[o::sq(f, r8)] = o::mk(!w, [o::N, o::B, o::R, o::Q][e.pick(4)]);
+                }
+            }
+        }
         p.wtm = e.pick(2) == 0;
         p.fmn = 50 + e.pick(30) as u32;
         if p.is_valid_start().is_err() || p.legal_moves().is_empty() {
@@ -335,6 +472,149 @@ pub fn run(ctx: &Ctx) -> Report {
         }
         rep.class("start:discovery-setup");
         let out = compare(&p.to_fen(), &[], *d, budget, rep)?;
+        if let Some(s) = out.skipped {
+            rep.class(&format!("skipped:{s}"));
+        }
+        Ok(())
+    });
+    // en passant at the horizon (see ep_horizon_pos): depth 1 or 3 when the pushing side is to
+    // move, depth 2 otherwise, so that the double push is the last full-width ply
+    let eph = ctx.tier.pick(6400, 96_000) / ctx.shard_count() as u32;
+    run_prop(ctx, "c11-ep-horizon", eph, 200, (gen::synth_strategy(), 0u8..4), &mut rep, |(ent, dsel), rep| {
+        let Some((p, pusher)) = ep_horizon_pos(&mut Entropy::new(ent)) else {
+            rep.class("start:rejected");
+            return Ok(());
+        };
+        let d = if pusher {
+            if *dsel == 3 && p.legal_moves().len() <= 12 {
+                3
+            } else {
+                1
+            }
+        } else {
+            2
+        };
+        rep.class("start:ep-horizon");
+        let out = compare(&p.to_fen(), &[], d, budget, rep)?;
+        if let Some(s) = out.skipped {
+            rep.class(&format!("skipped:{s}"));
+        }
+        Ok(())
+    });
+    // promotion WITH capture at the horizon: a pawn on its 7th rank attacks enemy pieces on both
+    // neighbouring squares of the 8th rank (its own promotion square is blocked or free), the
+    // other side moves first (depth 1) or second (depth 2): it cannot save both pieces, so the
+    // capturing promotion found by quiescence decides the value
+    let forks = ctx.tier.pick(2400, 32_000) / ctx.shard_count() as u32;
+    run_prop(ctx, "c11-promo-fork", forks, 200, (gen::synth_strategy(), 1u32..=2), &mut rep, |(ent, d), rep| {
+        let mut e = Entropy::new(ent);
+        let mut p = Pos::empty();
+        let f = 1 + e.pick(6) as i32;
+        p.sq[o::sq(f, 6)] = o::mk(true, o::P);
+        for df in [-1, 1] {
+            p.sq[o::sq(f + df, 7)] = o::mk(false, [o::N, o::B, o::R, o::Q, o::N, o::R][e.pick(6)]);
+        }
+        if e.pick(2) == 0 {
+            p.sq[o::sq(f, 7)] = o::mk(e.pick(2) == 0, [o::N, o::B, o::R][e.pick(3)]);
+        }
+        let free: Vec<usize> = (0..64).filter(|&s| p.sq[s] == 0).collect();
+        let wk = free[e.pick(free.len())];
+        p.sq[wk] = o::mk(true, o::K);
+        let c: Vec<usize> = (0..64).filter(|&s| p.sq[s] == 0 && (o::file_of(s) - o::file_of(wk)).abs().max((o::rank_of(s) - o::rank_of(wk)).abs()) > 1).collect();
+        p.sq[c[e.pick(c.len())]] = o::mk(false, o::K);
+        for _ in 0..e.pick(3) {
+            let t = [o::N, o::B, o::P, o::R][e.pick(4)];
+            let free: Vec<usize> = (0..64).filter(|&s| p.sq[s] == 0 && (t != o::P || (1..=6).contains(&o::rank_of(s)))).collect();
+            p.sq[free[e.pick(free.len())]] = o::mk(e.pick(2) == 0, t);
+        }
+        // depth 1: the defender moves, then quiescence; depth 2: the pawn's side makes a quiet move first
+        p.wtm = *d == 2;
+        p.fmn = 40 + e.pick(30) as u32;
+        let p = if e.pick(2) == 1 { p.mirror() } else { p };
+        if p.is_valid_start().is_err() || p.legal_moves().is_empty() || p.legal_moves().len() > 40 {
+            rep.class("start:rejected");
+            return Ok(());
+        }
+        rep.class("start:promotion-fork");
+        let out = compare(&p.to_fen(), &[], *d, budget, rep)?;
+        if let Some(s) = out.skipped {
+            rep.class(&format!("skipped:{s}"));
+        }
+        Ok(())
+    });
+    // repetition inside the tree: sparse, materially unbalanced positions reached by a short
+    // to-and-fro (A m1 B m2 C m1' D): the side to move can step back into a position of the
+    // game (an immediate draw), which the side that is behind wants and the other must avoid
+    let reps = ctx.tier.pick(4000, 64_000) / ctx.shard_count() as u32;
+    run_prop(ctx, "c11-repetition", reps, 200, (gen::synth_strategy(), 1u32..=3), &mut rep, |(ent, d), rep| {
+        let mut e = Entropy::new(ent);
+        let mut p = Pos::empty();
+        let wk = e.pick(64);
+        let c: Vec<usize> = (0..64).filter(|&s| (o::file_of(s) - o::file_of(wk)).abs().max((o::rank_of(s) - o::rank_of(wk)).abs()) > 1).collect();
+        p.sq[wk] = o::mk(true, o::K);
+        p.sq[c[e.pick(c.len())]] = o::mk(false, o::K);
+        for _ in 0..1 + e.pick(4) {
+            let t = [o::N, o::B, o::R, o::Q, o::P, o::R][e.pick(6)];
+            let free: Vec<usize> = (0..64).filter(|&s| p.sq[s] == 0 && (t != o::P || (1..=6).contains(&o::rank_of(s)))).collect();
+            p.sq[free[e.pick(free.len())]] = o::mk(e.pick(2) == 0, t);
+        }
+        p.wtm = e.pick(2) == 0;
+        p.fmn = 30 + e.pick(40) as u32;
+        p.hmc = e.pick(40) as u32;
+        if p.is_valid_start().is_err() || p.in_check(p.wtm) {
+            rep.class("start:rejected");
+            return Ok(());
+        }
+        let mut game = Game::new(p);
+        // m1, m2: reversible moves (no pawn move, no capture), then m1 back
+        let mut played: Vec<Mv> = vec![];
+        for k in 0..3 {
+            let legal = game.cur.legal_moves();
+            let cand: Vec<Mv> = if k < 2 {
+                legal.into_iter().filter(|m| !m.is_capture() && o::pt(game.cur.sq[m.from as usize]) != o::P && !m.is_castle()).collect()
+            } else {
+                legal.into_iter().filter(|m| m.from == played[0].to && m.to == played[0].from && !m.is_capture()).collect()
+            };
+            if cand.is_empty() {
+                rep.class("start:rejected");
+                return Ok(());
+            }
+            let m = cand[e.pick(cand.len())];
+            played.push(m);
+            game.play(m);
+        }
+        // now the mover can undo m2 and repeat the first position
+        if game.cur.legal_moves().is_empty() {
+            return Ok(());
+        }
+        rep.class("start:to-and-fro(repetition available)");
+        let d = if game.cur.legal_moves().len() > 24 { (*d).min(2) } else { *d };
+        let out = compare(&game.start.to_fen(), &game.moves_uci(), d, budget, rep)?;
+        if let Some(s) = out.skipped {
+            rep.class(&format!("skipped:{s}"));
+        }
+        Ok(())
+    });
+    // the fifty-move clock runs out inside the tree on checking moves: mate nets and check
+    // chains with the clock at 100-k, searched to depth k..3
+    let fifty = ctx.tier.pick(4800, 64_000) / ctx.shard_count() as u32;
+    run_prop(ctx, "c11-fifty-check", fifty, 200, (gen::synth_strategy(), 1u32..=3, 0u32..=2), &mut rep, |(ent, k, extra), rep| {
+        let Some(mut p) = super::c12::mate_net_pos(&mut Entropy::new(ent)) else {
+            rep.class("start:rejected");
+            return Ok(());
+        };
+        p.hmc = 100 - *k;
+        p.fmn = p.fmn.max(60);
+        let n = p.legal_moves().len();
+        if n == 0 || p.is_valid_start().is_err() {
+            return Ok(());
+        }
+        let mut d = (*k + *extra).min(3);
+        if n > 25 {
+            d = d.min(2).max(*k.min(&2));
+        }
+        rep.class("start:fifty-move-clock-about-to-run-out");
+        let out = compare(&p.to_fen(), &[], d, budget, rep)?;
         if let Some(s) = out.skipped {
             rep.class(&format!("skipped:{s}"));
         }
